@@ -615,3 +615,18 @@ Lemma request_burst_served : forall A (rs : list A),
   (length rs <= Z.to_nat request_recv_buffer_size)%nat ->
   req_burst (Z.to_nat data_sourcing_request_limit) [] rs = rs.
 Proof. intros A rs H. apply req_burst_from_empty. rewrite request_limit_is_configured_size. exact H. Qed.
+
+
+(* a request whose handling failed is NOT subscribed: sending it again (after the restart) is a fresh AddMetric *)
+Lemma repeat_after_fault_is_served : forall cats s c n cat s1 o1 s2 o2,
+  step cats s (AddFault c n) = Some (s1, o1) -> step cats s1 Restart = Some (s2, o2) ->
+  cats c = Some cat -> supported cat (n_metric n) = true -> ~ In n (st_subs s c) ->
+  ~ In n (st_subs s2 c) /\
+  exists s3, step cats s2 (AddMetric c n) = Some (s3, []) /\ st_subs s3 c = st_subs s c ++ [n] /\
+             st_hand s3 c = Some HStarting.
+Proof.
+  intros cats s c n cat s1 o1 s2 o2 H1 H2 Hc Hs Hn. cbn [step] in H1, H2.
+  injection H1 as <- <-. injection H2 as <- <-. split; [exact Hn|].
+  cbn [step]. rewrite Hc, Hs. cbn [negb]. apply mem_name_false in Hn. rewrite Hn.
+  eexists. split; [reflexivity|]. simp_st. rewrite !upd_eq. auto.
+Qed.
